@@ -561,11 +561,15 @@ func parseComment(l *syntax.Lexer) (bool, syntax.Token, error) {
 		// parse ：after 「注」
 		if l.GetCurrentChar() == Colon {
 			isComment = true
-			switch l.Next() {
+			// (only an opening quote is consumed here: the character after the colon of a
+			// single-line comment may be the line break that ends it)
+			switch l.Peek() {
 			case LeftDoubleQuoteI:
+				l.Next()
 				multiCommentType = commentTypeQuoteI
 				quoteCount = 1
 			case LeftDoubleQuoteII:
+				l.Next()
 				multiCommentType = commentTypeQuoteII
 				quoteCount = 1
 			default:
